@@ -61,9 +61,9 @@ def shards(tier):
 SA, GRP = 3, 2          # unit under test (overridden by the address sweep)
 
 
-def mkbus(groups=None):
+def mkbus(groups=None, unaddressed=False):
     groups = (GRP,) if groups is None else groups
-    u = G.Gear(short=SA, groups=set(groups), devicetypes=[6, 8])
+    u = G.Gear(short=None if unaddressed else SA, groups=set(groups), devicetypes=[6, 8])
     v = G.Gear(short=(SA + 1) % 64, groups={(GRP + 3) % 16}, devicetypes=[8])
     for x in (u, v):
         x.dtr0 = x.dtr1 = x.dtr2 = 0xA5
@@ -77,7 +77,7 @@ _SUBS = {}
 
 
 def mkdest(kind):
-    from dali.address import GearShort, GearGroup, GearBroadcast
+    from dali.address import GearShort, GearGroup, GearBroadcast, GearBroadcastUnaddressed
 
     def mk(cls, *args):
         if AFORM == "sub":
@@ -85,12 +85,13 @@ def mkdest(kind):
                 _SUBS[cls] = type("Labelled" + cls.__name__, (cls,), {"label": "luminaire"})
             return _SUBS[cls](*args)
         return cls(*args)
-    return {"short": lambda: mk(GearShort, SA), "int": lambda: SA, "group": lambda: mk(GearGroup, GRP), "broadcast": lambda: mk(GearBroadcast)}[kind]()
+    return {"short": lambda: mk(GearShort, SA), "int": lambda: SA, "group": lambda: mk(GearGroup, GRP), "broadcast": lambda: mk(GearBroadcast),
+            "unaddressed": lambda: mk(GearBroadcastUnaddressed)}[kind]()
 
 
 def check_set(res, dest, val):
     from dali.gear.sequences import SetDT8ColourValueTc
-    u, v, bus = mkbus()
+    u, v, bus = mkbus(unaddressed=dest == "unaddressed")      # (broadcast unaddressed: the unit under test has no short address yet)
     kind, r, n = G.run_sequence(SetDT8ColourValueTc(mkdest(dest), val), bus, 50)
     res["transitions"] += n
     case = {"t": "set", "dest": dest, "value": val}
@@ -112,7 +113,7 @@ def check_set(res, dest, val):
         add_violation(res, f"C14:set-bystander:{dest}", f"value {val}: an unaddressed unit was changed", case)
 
 
-def check_limit(res, sel, val):
+def check_limit(res, sel, val, dest="short"):
     from dali.gear.sequences import SetDT8TcLimit
     from dali.gear.colour import StoreColourTemperatureTcLimitDTR2 as L
     u, v, bus = mkbus()
@@ -124,12 +125,12 @@ def check_limit(res, sel, val):
         add_violation(res, "C14:limit-selector-missing", f"StoreColourTemperatureTcLimitDTR2 has no member {lname}", {"t": "limit", "sel": sel, "value": val})
         return
     for form in (selector, sel):
-        u, v, bus = mkbus()
-        kind, r, n = G.run_sequence(SetDT8TcLimit(mkdest("short"), form, val), bus, 50)
+        u, v, bus = mkbus(unaddressed=dest == "unaddressed")
+        kind, r, n = G.run_sequence(SetDT8TcLimit(mkdest(dest), form, val), bus, 50)
         res["transitions"] += n
-        case = {"t": "limit", "sel": sel, "value": val}
+        case = {"t": "limit", "sel": sel, "value": val, "dest": dest}
         if kind != "return":
-            add_violation(res, "C14:limit-raised", f"SetDT8TcLimit({sel},{val}): {kind} {r!r}", case)
+            add_violation(res, "C14:limit-raised" + ("" if dest == "short" else ":" + dest), f"SetDT8TcLimit({dest},{sel},{val}): {kind} {r!r}", case)
             return
         names = [d[1] for d, a in bus.log]
         if sorted(names[:3]) != ["DTR0", "DTR1", "DTR2"] or names[3:] != ["StoreColourTemperatureTcLimit"]:
@@ -138,7 +139,10 @@ def check_limit(res, sel, val):
         exp[sel] = val
         if u.tc_limits != exp:
             add_violation(res, "C14:limit-value", f"selector {sel} value {val:#06x}: limits {u.tc_limits}", case)
-        if v.tc_limits != {0: 0x1111, 1: 0x2222, 2: 0x3333, 3: 0x4444}:
+        if dest == "broadcast":
+            if v.tc_limits != exp:
+                add_violation(res, "C14:limit-value:broadcast", f"selector {sel} value {val:#06x}: second unit's limits {v.tc_limits}", case)
+        elif v.tc_limits != {0: 0x1111, 1: 0x2222, 2: 0x3333, 3: 0x4444}:
             add_violation(res, "C14:limit-bystander", "unaddressed unit changed", case)
 
 
@@ -183,11 +187,12 @@ def run_addr_sweep(res, lo, hi):
         for sa, aform in [(a, None) for a in range(lo, hi)] + [(a, "sub") for a in range(lo, hi) if a % 16 in (0, 5, 15)]:
             SA, GRP, AFORM = sa, sa % 16, aform
             n0 = len(res["violations"])
-            for dest in ("short", "int", "group", "broadcast"):
+            for dest in ("short", "int", "group", "broadcast", "unaddressed"):
                 for val in (0x00C8, 0x0172, 0x01FF):
                     check_set(res, dest, val)
             for lim in range(4):
-                check_limit(res, lim, 0x0099 + lim)
+                for dest in ("short", "int", "group", "broadcast", "unaddressed"):
+                    check_limit(res, lim, 0x0099 + lim, dest)
             for val in (0x00FF, 0x1234):
                 check_query(res, sel, val)
                 check_query(res, sel, val, ("QueryColourValue", "silence"))
@@ -367,7 +372,7 @@ def replay(case):
     if t == "set":
         check_set(res, case["dest"], case["value"])
     elif t == "limit":
-        check_limit(res, case["sel"], case["value"])
+        check_limit(res, case["sel"], case["value"], case.get("dest", "short"))
     elif t == "query":
         sel = [m for m in Q if m.value == case["sel"]][0]
         check_query(res, sel, case["value"], tuple(case["fault"]) if case["fault"] else None)
